@@ -114,18 +114,43 @@ def check(repo, rep):
         if not gets:
             continue
         msg = gets[0][1]
-        isstop = any(ct[0] == 'cmp' and ct[1] in ('==', 'is') and ct[2] == msg and pr.isstop(ct[3]) and tr for ct, tr, _ in l.conds)
-        if l.outcome == 'return' and l.value is not None and l.value[0] == 'cmp' and l.value[1] in ('==', 'is') and l.value[2] == msg and pr.isstop(l.value[3]):
-            sawT = True        # returns (message == STOP): truthy exactly for the stop marker
-            rep.ob('a queued stop marker makes the poll truthy', True, cx.where(poll[0], poll[2]), sample=dict(poll='returns message == STOP'))
-            continue
-        if isstop:
-            sawT = True
-            rep.ob('a queued stop marker makes the poll truthy', l.outcome == 'return' and l.value == ('c', True), cx.where(poll[0], poll[2]), '%s.%s:stop' % (poll[1].name, poll[2].name), 'returns %s' % (show(l.value) if l.value else None),
-                   sample=dict(poll='STOP queued', returns=show(l.value) if l.value else None))
-        else:
-            falsy = l.value in (('c', False), ('c', None), None) or l.outcome == 'fall'
-            rep.ob('anything else leaves the poll falsy', falsy, cx.where(poll[0], poll[2]), '%s.%s:other' % (poll[1].name, poll[2].name), 'returns %s' % (show(l.value) if l.value else None))
+        # the message polled is given its two kinds (the stop marker, anything else) and taken through the path's conditions; the value
+        # returned on the path is evaluated for that kind: truthy for the marker, falsy for the rest
+        from ..semantic import evaluator, Undecided
+        from ..termeval import NotEvaluable
+        try:
+            for kind, val in (('stop', 'STOP-MARKER'), ('other', (5, 'a-region'))):
+                a_ = {msg: val}
+                if pr.stop is not None:
+                    a_[pr.stop] = 'STOP-MARKER'
+                ok_ = True
+                for ct, tr, _ in l.conds:
+                    if not any(x == msg for x in walk(ct)):
+                        continue
+                    ev_ = evaluator(a_)
+                    got = ev_.ev(ct)
+                    if ev_.leaves:
+                        raise Undecided('condition %s' % show(ct)[:60])
+                    if bool(got) != tr:
+                        ok_ = False
+                        break
+                if not ok_:
+                    continue
+                if l.outcome == 'return' and l.value is not None:
+                    ev_ = evaluator(a_)
+                    rv = ev_.ev(l.value)
+                    if ev_.leaves:
+                        raise Undecided('returned value %s' % show(l.value)[:60])
+                else:
+                    rv = None
+                if kind == 'stop':
+                    sawT = True
+                    rep.ob('a queued stop marker makes the poll truthy', bool(rv), cx.where(poll[0], poll[2]), '%s.%s:stop' % (poll[1].name, poll[2].name), 'returns %s, i.e. %r for the stop marker' % (show(l.value) if l.value else None, rv),
+                           sample=dict(poll='STOP queued', returns=show(l.value) if l.value else None))
+                else:
+                    rep.ob('anything else leaves the poll falsy', not rv, cx.where(poll[0], poll[2]), '%s.%s:other' % (poll[1].name, poll[2].name), 'returns %s, i.e. %r for a data message' % (show(l.value) if l.value else None, rv))
+        except (Undecided, NotEvaluable) as exc:
+            rep.unknown('%s.%s: the poll could not be evaluated (%s)' % (poll[1].name, poll[2].name, exc))
     rep.ob('the stop poll distinguishes a queued stop marker from an empty inbox', sawT and sawE, cx.where(poll[0], poll[2]), '%s.%s:cases' % (poll[1].name, poll[2].name))
     check_tokenizer_read(cx, pr, rep, tk, poll)
     # ---------------------------------------------------------------- T3 stop_all: tokenizer first, then observers and reader
